@@ -361,8 +361,9 @@ def parse_statement(s):
 
 HEADER_FN = re.compile(r"^fn (.*?)\((.*)\) -> (.*) \{$")
 HEADER_FN_UNIT = re.compile(r"^fn (.*?)\((.*)\) \{$")
-HEADER_CONST = re.compile(r"^(?:const|static(?: mut)?) (.*?): (.*) = \{$")
-SIMPLE_CONST = re.compile(r"^const (.*?): (.*?) = const (.*);$")
+_NAME = r"((?:<impl at [^>]*>|[^:<]|::|<)*?)"       # item paths may contain `<impl at file:l:c: l:c>` (with ": " inside)
+HEADER_CONST = re.compile(r"^(?:const|static(?: mut)?) " + _NAME + r": (.*) = \{$")
+SIMPLE_CONST = re.compile(r"^const " + _NAME + r": (.*?) = const (.*);$")
 
 
 def parse_mir(text):
